@@ -100,7 +100,7 @@ array_equal = sym('array_equal', (T, T), B, lambda a, b: bool(_np.array_equal(a,
 allclose = sym('allclose', (T, T), B, lambda a, b: bool(_np.allclose(a, b)))
 diagm = sym('diagm', (T,), T, lambda v: _np.diag(v))
 diagv = sym('diagv', (T,), T, lambda a: _np.diag(a))
-is_pd = sym('is_pd', (T,), B, None)
+is_pd = sym('is_pd', (T,), B, lambda a: bool(_np.all(_np.linalg.eigvalsh((a + a.T) / 2) > 0)))
 chol = sym('chol', (T,), T, lambda a: _np.linalg.cholesky(a))
 eigvals = sym('eigvals', (T,), T, lambda a: _np.linalg.eigh(a)[0])
 eigvecs = sym('eigvecs', (T,), T, lambda a: _np.linalg.eigh(a)[1])
@@ -171,6 +171,7 @@ sdivl = sym('sdivl', (R, T), T, lambda c, a: c / a)          # scalar / array
 sdivr = sym('sdivr', (T, R), T, lambda a, c: a / c)          # array / scalar
 
 colscale = sym('colscale', (T, T), T, lambda A, y: A * y)                 # A * y  with A (d, n), y (n,): column j scaled by y[j]
+rowscale = sym('rowscale', (T, T), T, lambda A, c: A * c)                  # A * c  with A (n, d), c (n, 1): row i scaled by c[i, 0]
 colscale2 = sym('colscale2', (T, T), T, lambda A, r: A * r)               # A * r  with r of shape (1, n)
 addaxis0 = sym('addaxis0', (T,), T, lambda v: v[None, :])
 psd = sym('psd', (T,), B, lambda a: bool(_np.all(_np.linalg.eigvalsh((a + a.T) / 2) >= -1e-9 * max(1.0, abs(a).max()))))
@@ -313,10 +314,10 @@ ax('len_upd1', 'lib', [a, i, s], lenT(upd1(a, i, s)) == lenT(a), [z3.MultiPatter
 ax('at1_zeros_', 'lib', [n, j], at1(zeros(n), j) == 0, [z3.MultiPattern(at1(zeros(n), j))], ['at1', 'zeros'])
 _m = z3.Const('m', T)
 ax('at1_sdivwhere', 'lib', [s, a, _m, j], at1(sdivwhere(s, a, _m), j) == z3.If(at1(_m, j) != 0, s / at1(a, j), at1(a, j)),
-   [z3.MultiPattern(at1(sdivwhere(s, a, _m), j))], ['at1', 'sdivwhere'])
+   [z3.MultiPattern(at1(sdivwhere(s, a, _m), j))], ['at1', 'sdivwhere'], gen=dict(s='real', a='pvec(n)', m='bvec(n)', j='idx(n)'))
 ax('at1_setmask', 'lib', [a, _m, s, j], at1(setmask(a, _m, s), j) == z3.If(at1(_m, j) != 0, s, at1(a, j)),
-   [z3.MultiPattern(at1(setmask(a, _m, s), j))], ['at1', 'setmask'])
-ax('at1_notT', 'lib', [a, j], at1(notT(a), j) == 1 - at1(a, j), [z3.MultiPattern(at1(notT(a), j))], ['at1', 'notT'])
+   [z3.MultiPattern(at1(setmask(a, _m, s), j))], ['at1', 'setmask'], gen=dict(a='vec(n)', m='bvec(n)', s='real', j='idx(n)'))
+ax('at1_notT', 'lib', [a, j], at1(notT(a), j) == 1 - at1(a, j), [z3.MultiPattern(at1(notT(a), j))], ['at1', 'notT'], gen=dict(a='bvec(n)', j='idx(n)'))
 ax('at1_setwhere_eq', 'lib', [a, s, t, j], at1(setwhere_eq(a, s, t), j) == z3.If(at1(a, j) == s, t, at1(a, j)),
    [z3.MultiPattern(at1(setwhere_eq(a, s, t), j))], ['at1', 'setwhere_eq'], gen=dict(a='vec(n)', s='real', t='real', j='idx(n)'))
 ax('pd_eye', 'math', [n], pd(eye(n)), [z3.MultiPattern(eye(n))], ['eye'], lean='posDef_one')
@@ -342,6 +343,24 @@ ax('at2_minimum_s', 'lib', [a, s, ii, j], at2(minimum_s(s, a), ii, j) == z3.If(a
 ax('at2_zeros2', 'lib', [n, i, ii, j], at2(zeros2(n, i), ii, j) == 0, [z3.MultiPattern(at2(zeros2(n, i), ii, j))], ['at2', 'zeros2'])
 ax('clip_psd', 'math', [a, v, s], z3.Implies(s >= 0, psd(mm(colscale2(a, maximum_s(s, v)), tr(a)))), [z3.MultiPattern(mm(colscale2(a, maximum_s(s, v)), tr(a)))],
    ['mm', 'colscale2', 'maximum_s', 'tr'], lean='clip_psd', gen=dict(a='mat(d,d)', v='row(d)', s='nnreal'))
+# ---- conversion of a PSD matrix to a transformation (C20; Lean: lean/diag_eig_clip_basis.lean, lean/psd_spectrum.lean)
+ax('diag_sqrt_clip_gram', 'math', [v, s], z3.Implies(s >= 0, mm(tr(diagm(sqrtT(maximum_s(s, v)))), diagm(sqrtT(maximum_s(s, v)))) == diagm(maximum_s(s, v))),
+   [z3.MultiPattern(diagm(sqrtT(maximum_s(s, v))))], ['diagm', 'sqrtT', 'maximum_s'], lean='diag_sqrt_clip_gram', gen=dict(v='vec(d)', s='nnreal'))
+ax('eig_factor_gram_clip', 'math', [a, v, s],
+   z3.Implies(s >= 0, mm(tr(rowscale(tr(a), sqrtT(maximum_s(s, addaxis1(v))))), rowscale(tr(a), sqrtT(maximum_s(s, addaxis1(v)))))
+              == mm(colscale(a, maximum_s(s, v)), tr(a))),
+   [z3.MultiPattern(rowscale(tr(a), sqrtT(maximum_s(s, addaxis1(v)))))], ['rowscale', 'sqrtT', 'maximum_s', 'addaxis1', 'tr'],
+   lean='eig_factor_gram_clip', gen=dict(a='mat(d,d)', v='vec(d)', s='nnreal'))
+ax('max_floor_id', 'math', [v, s], z3.Implies(z3.Not(anyT(cmps('lt')(v, s))), maximum_s(s, v) == v), [z3.MultiPattern(maximum_s(s, v))],
+   ['maximum_s'], lean='max_floor_id', gen=dict(v='pvec(d)', s='real'))
+ax('psd_diag_nonneg', 'math', [a], z3.Implies(psd(a), z3.Not(anyT(cmps('lt')(diagv(a), z3.RealVal(0))))), [z3.MultiPattern(psd(a), diagv(a))],
+   ['diagv'], lean='psd_diag_nonneg')
+ax('psd_eigvals_nonneg', 'math', [a], z3.Implies(z3.And(psd(a), a == tr(a)), z3.Not(anyT(cmps('lt')(eigvals(a), z3.RealVal(0))))),
+   [z3.MultiPattern(psd(a), eigvals(a))], ['eigvals'], lean='psd_eigvals_nonneg')
+ax('eigh_reconstruct', 'lib', [a], z3.Implies(a == tr(a), mm(colscale(eigvecs(a), eigvals(a)), tr(eigvecs(a))) == a),
+   [z3.MultiPattern(eigvecs(a), eigvals(a))], ['eigvecs', 'eigvals'], gen=dict(a='spd(d)'))
+ax('chol_factor', 'lib', [a], z3.Implies(is_pd(a), mm(chol(a), tr(chol(a))) == a), [z3.MultiPattern(chol(a))], ['chol'], gen=dict(a='spd(d)'))
+ax('array_equal_eq', 'def', [a, b], z3.Implies(array_equal(a, b), a == b), [z3.MultiPattern(array_equal(a, b))], ['array_equal'])
 # ---- math: positive definite matrices (Lean: lean/itml_rank_one.lean)
 ax('pd_quad_pos', 'math', [a, v], z3.Implies(z3.And(pd(a), nonzero(v)), dot(vm(v, a), v) > 0), [z3.MultiPattern(dot(vm(v, a), v))], ['dot', 'vm'],
    lean='posDef_quad_pos', gen=dict(a='spd(d)', v='vec(d)'))
